@@ -88,7 +88,8 @@ func goEnv() []string {
 // (module replace => /repo) with the hooks enabled.
 func buildWorker(race bool) (string, error) {
 	out := filepath.Join(root, "build", "worker.test")
-	args := []string{"test", "-c", "-tags", "verif", "-o", out, "./sim"}
+	// -checklinkname=0: sim/pools.go binds sync.poolCleanup
+	args := []string{"test", "-c", "-tags", "verif", "-ldflags=-checklinkname=0", "-o", out, "./sim"}
 	if race {
 		out = filepath.Join(root, "build", "worker-race.test")
 		// -checklinkname=0: the race build binds sync.poolCleanup (see sim/race_on.go)
